@@ -40,7 +40,8 @@ def base_headers(rng, kind):
             h.append((b':protocol', rng.choice([b'websocket', b'connect-udp'])))
         rng.shuffle(h)
     elif kind == 'response':
-        h = [(b':status', rng.choice([b'200', b'404', b'100', b'103', b'500']))]
+        # (8.1.2 says nothing about the shape of a :status value: odd ones are delivered like any other)
+        h = [(b':status', rng.choice([b'200', b'404', b'100', b'103', b'500', b'200', b'204', b'1xx', b'10a', b'1.0', b'2x0', b'abc', b'1']))]
     else:
         h = []
     for _ in range(rng.randrange(0, 4)):
